@@ -9,7 +9,10 @@ use serde_json::{json, Value};
 
 pub fn scalars() -> Vec<V> {
     let mut v: Vec<V> = ["x", "", "007", "true", "null", "1e3", "~", " a ", "é", "a: b", "#c", "- d", "it's", "q\"uote", "multi word", "yes", "0x1F", "1.0", "-5", "[1]", "{a}", "a,b", "ünï😀", "NULL", "False"].iter().map(|x| s(x)).collect();
+    // control characters and the characters YAML 1.1 reads as line breaks (appended so that the indices above stay put)
+    let ctl = ["x\u{0}y", "t\tb", "\u{1}", "a\u{7f}b", "a\u{85}b", "a\u{2028}b", "\u{feff}x"];
     v.extend(vec![i(0), i(-1), i(i64::MIN), i(i64::MAX), i(42), f(0.5), f(-2.25), f(1e20), f(1.0), f(0.0), V::Bool(true), V::Bool(false), V::Null]);
+    v.extend(ctl.iter().map(|x| s(x)));
     v
 }
 
@@ -73,7 +76,7 @@ fn probes(v: &V, q: &str, out: &mut Vec<String>) {
 pub fn rules_for(doc: &V) -> (String, Vec<String>, bool) {
     let mut t = String::new();
     let mut names = vec![];
-    let lit_ok = doc.guard_expressible() && !has_str(doc, &|s| s.ends_with('\\') || s.contains('\n'));
+    let lit_ok = doc.guard_expressible() && !has_str(doc, &|s| s.ends_with('\\') || s.contains('\n') || s.contains('\u{0}'));
     if lit_ok {
         // pick the quote that needs no escaping when possible
         t.push_str(&format!("rule same {{ this == {} }}\n", doc.guard_q(if has_str(doc, &|s| s.contains('"')) && !has_str(doc, &|s| s.contains('\'')) { '\'' } else { '"' })));
@@ -263,7 +266,24 @@ pub fn run(tier: &str) -> i32 {
         let doc = &docs[di];
         let (rules, names, _) = rules_for(doc);
         let (text, _) = write(doc, &lays[li]);
-        observe(doc, &text, &lays[li].name(), &rules, &names, acc);
+        // JSON allows U+007F..U+009F, U+2028 and U+2029 unescaped inside strings; the YAML 1.1 loaders behind validate and
+        // test treat them as non-printable / as line breaks. Such states get their own signature (cause = the character).
+        let raw_special = lays[li].kind.starts_with("json") && has_str(doc, &|x| x.chars().any(|c| matches!(c as u32, 0x7f..=0x9f | 0x2028 | 0x2029)));
+        if raw_special {
+            let mut sub = Acc::new();
+            observe(doc, &text, &lays[li].name(), &rules, &names, &mut sub);
+            for v in sub.viols {
+                let loader = v.replay["loader"].as_str().unwrap_or("?").to_string();
+                let sig = if loader == "run_checks" { format!("json-raw-char:run_checks:{}", v.signature) } else { format!("json-string-with-raw-C1-or-line-separator:{}", loader) };
+                acc.violate(&sig, v.what, v.replay);
+            }
+            acc.traces += sub.traces;
+            for (k, c) in sub.outcomes {
+                *acc.outcomes.entry(k).or_insert(0) += c;
+            }
+        } else {
+            observe(doc, &text, &lays[li].name(), &rules, &names, acc);
+        }
         acc.nontrivial += 1;
     }, Acc::merge);
     rep.states += res.done as u64 * 3;
